@@ -454,3 +454,8 @@ Fixpoint verify_rrsets (l : ledger) (sets : list (list (nat * option nat))) : le
     | r' => (l1, r')
     end
   end.
+
+(* what the two local allowances admit for a shape: per RRset min(Rl, sum over signatures of min(K, candidates)) *)
+Definition sig_shape_bound (K Rl : N) (sets : list (list (nat * option nat))) : N :=
+  fold_right (fun sigs a => N.min Rl (fold_right (fun s b => N.min K (N.of_nat (fst s)) + b) 0 sigs) + a) 0 sets.
+
